@@ -1,5 +1,5 @@
 From Coq Require Import List NArith String Ascii Bool.
-From WX Require Import Base.Show Worker.Throttle Worker.ErrorHook.
+From WX Require Import Base.Show Worker.Throttle Worker.ThrottleRt Worker.ErrorHook.
 Import ListNotations.
 Open Scope string_scope.
 
@@ -13,6 +13,11 @@ Definition show_batch (b : batch) : string :=
 Definition eval_collect (l : list (N * N * (N * bool * bool * N))) (th_end : N) : string :=
   let l' := map (fun x => match x with (R, th, (i, u, e, v)) => (R, th, mkev i u e v) end) l in
   sep_by ";" (map show_batch (collect l' th_end)) ++ " E" ++ show_list show_N (filter_errors l').
+
+(* run-time machine: an item is (false, R, (id, urgent, empty, verdict)) for an event or (true, T, (v, _, _, _)) for a change *)
+Definition eval_rt (init : N) (l : list (bool * N * (N * bool * bool * N))) : string :=
+  let l' := map (fun x => match x with (isset, t, (i, u, e, v)) => if (isset : bool) then ISet t i else IEv t (mkev i u e v) end) l in
+  sep_by ";" (map show_batch (rt_collect init l')) ++ " E" ++ show_list show_N (rt_errors init l').
 
 Definition beh_of (tbl : list (N * N)) (i : N) : hbeh :=
   match find (fun x => N.eqb (fst x) i) tbl with
